@@ -259,5 +259,7 @@ PROP = Prop(
     signature=signature,
     assumptions=["thread switches inside heapq's C functions can only happen inside the Python-level PriEntry.__lt__ "
                  "(CPython holds the GIL otherwise); deque.append/popleft are atomic under the GIL (scheduling loops)",
-                 "the foreign append is itself executed without further interleaving (single strike)"],
+                 "streams loop/strike: the foreign append is itself executed without further interleaving (single strike); "
+                 "stream wake: thread switches inside call_soon_threadsafe are taken at source-line granularity "
+                 "(calls made from it, e.g. Handle(), deque.append, _write_to_self, run without a switch)"],
 )
